@@ -336,3 +336,8 @@ def _table_tx(body, write_call, begin_call):
       if _same_tx(body, o.call.args[0], begin_call):
         return True
   return False
+
+
+# sensitivity pack (thorough tier): each seeded edit must be reported by the named rule instance
+MUTANTS = [{'name': 'seeded-C13-a', 'patch': 'C13-a/patch.diff', 'expect': ('R13.5', 'update_savepoints', 'LastSavepointHeight')},
+           {'name': 'seeded-C13-b', 'patch': 'C13-b/patch.diff', 'expect': ('R13.6', 'Updater::commit', 'precede wtx.commit')}]
